@@ -165,6 +165,7 @@ type regTrace struct {
 	switches  int
 	preempt   map[string]int64
 	trace     []int
+	blocks    int
 }
 
 // execC16Trace runs a case. choose==nil replays c.Regions.Schedule.
@@ -378,6 +379,7 @@ func execC16Trace(c *Case, choose func(runnable []int, cur int, step int) int) (
 			s.done[t] = true
 		case 2:
 			s.blocked[t] = true
+			tr.blocks++
 		}
 		if first != nil && stuck == nil {
 			// a verdict exists: let everybody run to completion (bodies return at once) to avoid leaks
@@ -401,6 +403,16 @@ func execC16Trace(c *Case, choose func(runnable []int, cur int, step int) int) (
 	tr.schedHash = hashSeq(tr.trace)
 	tr.preempt = s.preempt
 	return first, tr
+}
+
+func switchesOf(s []int) int {
+	n := 0
+	for i := 1; i < len(s); i++ {
+		if s[i] != s[i-1] {
+			n++
+		}
+	}
+	return n
 }
 
 func shrinkRegions(c *Case, try func(*Case) bool) bool {
@@ -452,6 +464,46 @@ func shrinkRegions(c *Case, try func(*Case) bool) bool {
 				continue
 			}
 			k++
+		}
+	}
+	// statement granularity: look for a schedule with a single pre-emption
+	// (caller a runs k points, then caller b runs to completion, then the rest in order)
+	if rc().Gran == "stmt" && switchesOf(rc().Schedule) > 1 {
+		key := ""
+		if v := Exec(c); v != nil {
+			key = v.Key
+		}
+	search:
+		for a := 0; a < len(rc().Tasks) && key != ""; a++ {
+			for b := 0; b < len(rc().Tasks); b++ {
+				if a == b {
+					continue
+				}
+				for k := 1; k <= len(rc().Schedule) && k <= 120; k++ {
+					d := c.Clone()
+					sch := make([]int, 0, k+1)
+					for i := 0; i < k; i++ {
+						sch = append(sch, a)
+					}
+					d.Regions.Schedule = append(sch, b)
+					v, tr := execC16Trace(d, nil)
+					if v == nil || v.Key != key {
+						continue
+					}
+					// keep the executed trace up to its last switch; the rest is the default
+					last := 0
+					for i := 1; i < len(tr.trace); i++ {
+						if tr.trace[i] != tr.trace[i-1] {
+							last = i
+						}
+					}
+					d.Regions.Schedule = append([]int(nil), tr.trace[:last+1]...)
+					if d.Regions.size() < rc().size() && try(d) {
+						any = true
+						break search
+					}
+				}
+			}
 		}
 	}
 	// fewer context switches: make a point continue the previous caller
@@ -691,6 +743,9 @@ func RunC16(ctx *core.Ctx, r *core.Rng) {
 		ctx.EvU(tr.schedHash, uint64(tr.yields), uint64(tr.switches))
 		ctx.Seen(tr.schedHash ^ core.HashString(fmt.Sprint(rc.Starts, rc.Ends, rc.Tasks)))
 		ctx.Stats.Add("yields/"+gran, int64(tr.yields))
+		if tr.blocks > 0 {
+			ctx.Stats.Add("probe/caller_parked_on_a_held_lock", int64(tr.blocks))
+		}
 		ctx.Stats.Add("fault_fired/context_switch_"+gran, int64(tr.switches))
 		ctx.Stats.Inc("cases/" + gran + "/" + strat)
 		names := make([]string, 0, len(tr.preempt))
